@@ -9,7 +9,7 @@ THEOREMS = ["capture_exact", "target_iff", "targets_nodup", "routed_message_is_c
             "owner_changed_is_captured", "driver_call_is_captured", "monitor_never_recipient", "monitor_sending_is_dropped",
             "f18_peer_filter_answers_monitors", "monitor_rules_eavesdrop", "gate_ignores_monitors", "others_observe_the_same_partial", "peer_traffic_step_ignores_monitors_partial",
             "driver_sends_the_same_partial", "new_monitor_has_no_rules", "step_ignores_monitors", "others_observe_the_same",
-            "others_observe_the_same_from_start", "shaded_bus_has_no_monitor", "reachable_monitor_is_inert", "reachable_states_are_good"]
+            "others_observe_the_same_from_start", "states_agree_up_to_shading", "shaded_bus_has_no_monitor", "reachable_monitor_is_inert", "reachable_states_are_good"]
 BUS = "org.freedesktop.DBus"
 W = {"monitor": 6, "call": 16, "reply": 8, "signal": 14, "request": 12, "release": 4, "close": 4, "connect": 6, "hello": 5, "addmatch": 5,
      "forged": 3, "query": 3, "driver_edge": 3, "nodest": 4, "badtype": 1, "garbage": 1, "removematch": 1}
